@@ -319,6 +319,9 @@ class PureWaiters:
         elif k == 'add':
             self.add(b[1], b[2])
 
+    def reinit(self):
+        pass        # nothing about the waiting list changes when the manager moves to another environment
+
     def advance(self, d):
         while self.pending > 0:
             self.pending -= 1
@@ -332,6 +335,14 @@ class PureWaiters:
                 else:
                     i += 1
         self.now += d
+
+
+class _Job:
+    def __init__(self, f):
+        self.f = f
+
+    def run(self, rm, request):
+        self.f(rm, request)
 
 
 class RealWaiters:
@@ -445,7 +456,11 @@ class RealWaiters:
             finally:
                 self.depth -= 1
         for _ in wids:
-            self.rm.reserve_resources_with_callback(mine, cb)
+            if len(wids) == 1 and wids[0] % 2 == 0:
+                # a bound method of an object nobody else keeps a reference to ("fire and forget")
+                self.rm.reserve_resources_with_callback(mine, _Job(cb).run)
+            else:
+                self.rm.reserve_resources_with_callback(mine, cb)
         if mutate:
             # the caller re-uses its dictionary: what was registered is the request as it was at registration
             for n in list(mine):
@@ -470,6 +485,14 @@ class RealWaiters:
             self.register(b[1], b[2])
         elif k == 'add':
             self.add(b[1], b[2])
+
+    def reinit(self):
+        # the same manager is handed to a second System / Environment (documented System(resource_manager=...)) and
+        # initialised there; from now on that environment runs
+        env2 = Environment(resource_manager=self.rm)
+        env2._now = self.env.now          # the second environment continues on the same time axis for the log
+        self.rm.initialize(env2)
+        self.env = env2
 
     def advance(self, d):
         self.env.run(d)
